@@ -937,7 +937,7 @@ func (cg *ConsumerGroup) coordinator() (coordinator, error) {
 func (cg *ConsumerGroup) joinGroup(conn coordinator, memberID string) (string, int32, GroupMemberAssignments, error) {
 	request, err := cg.makeJoinGroupRequest(memberID)
 	if err != nil {
-		return "", 0, nil, err
+		return memberID, 0, nil, err
 	}
 
 	response, err := conn.joinGroup(request)
@@ -945,7 +945,9 @@ func (cg *ConsumerGroup) joinGroup(conn coordinator, memberID string) (string, i
 		err = Error(response.ErrorCode)
 	}
 	if err != nil {
-		return "", 0, nil, err
+		// keep the member ID we had: the caller leaves the group with it
+		// instead of letting the broker wait for the session to time out.
+		return memberID, 0, nil, err
 	}
 
 	memberID = response.MemberID
